@@ -214,6 +214,16 @@ OPAQUE = {
     "_compute_hmac_bytes": {"raises": [], "returns": STR},
     # difflib.get_close_matches over (str, set[str]) (assumed contract A4: total; only feeds the error message text)
     "_find_similar_names": {"raises": [], "returns": OPT(STR)},
+    # input validation pipeline (runners/_shared/validation.py): helpers outside the verified subset (networkx scopes,
+    # message building); declared result types only, any of them may raise
+    "_resolve_active_scope": {"returns": FIXTUP(DICT(STR, OBJ("HyperNode")), ANY)},
+    "_resolve_effective_input_spec": {"returns": OBJ("InputSpec")},
+    "get_edge_produced_values": {"returns": SET(STR)},
+    "_get_interrupt_outputs": {"returns": SET(STR)},
+    "_find_internal_override_conflicts": {"returns": SEQ(STR)},
+    "_find_bypassed_inputs": {"returns": SET(STR)},
+    "_get_suggestions": {"returns": ANY},
+    "_build_missing_input_message": {"returns": STR},
     # uuid-based id generation and the frozen event dataclasses built from keyword arguments (assumed contracts A4: total)
     "_generate_run_id": {"raises": [], "returns": STR},
     "_generate_span_id": {"raises": [], "returns": STR},
